@@ -156,6 +156,19 @@ def generate(api):
         return translate_block(rs, api, 'miter_clamp', '(raw : option xq)', 'xq', "{ %s miterlimit }" % sl, BASE_CFG)
     section('miter_clamp', 'crates/usvg/src/parser/style.rs', g_miter)
 
+    # stroke width: validated after unit conversion (resolve_length -> NonZeroPositiveF32::new), dash list from conv_dasharray
+    def g_width(src):
+        params, ret, body = rs.find_fn(src, 'resolve_stroke')
+        need(api, r"let\s+width\s*=\s*node\.resolve_valid_length\(AId::StrokeWidth,\s*state,\s*1\.0\)\?;", body, "resolve_stroke: width via resolve_valid_length")
+        need(api, r"dasharray:\s*conv_dasharray\(node,\s*state\),", body, "resolve_stroke: dash list from conv_dasharray")
+        need(api, r"miterlimit,\s*opacity:", body, "resolve_stroke: clamped miter limit stored")
+        conv = api.rd('crates/usvg/src/parser/converter.rs')
+        p2, r2, b2 = rs.find_fn(conv, 'resolve_valid_length')
+        need(api, r"^\{\s*let\s+n\s*=\s*self\.resolve_length\(aid,\s*state,\s*def\);\s*NonZeroPositiveF32::new\(n\)\s*\}$", re.sub(r"//[^\n]*", "", b2).strip(),
+             "resolve_valid_length: NonZeroPositiveF32::new of the converted length")
+        return "Definition STROKE_WIDTH_DEFAULT : xq := Fin 1."
+    section('resolve_stroke skeleton', 'crates/usvg/src/parser/style.rs', g_width)
+
     def g_miter_new(src):
         params, ret, body = rs.find_fn(src, 'new', after=r"impl\s+StrokeMiterlimit\s*\{")
         body = strip_debug_asserts(body).replace("StrokeMiterlimit(n)", "n")
@@ -166,6 +179,10 @@ def generate(api):
     def g_dash(src):
         params, ret, body = rs.find_fn(src, 'conv_dasharray')
         code = re.sub(r"//[^\n]*", "", body)
+        # the values that are validated are the CONVERTED ones: `list` is the result of convert_list and the
+        # rejection test follows it directly (the model applies dash_reject after convert_length)
+        need(api, r"let\s+list\s*=\s*super::units::convert_list\(node,\s*AId::StrokeDasharray,\s*state\)\?;\s*if\s+list\.iter\(\)\.any\(", code,
+             "conv_dasharray: rejection test applied to the converted list")
         m = need(api, r"if\s+list\.iter\(\)\.any\(\|n\|\s*(.*?)\)\s*\{\s*return\s+None;\s*\}", code, "conv_dasharray rejection closure")
         clos = m.group(1)
         d1 = translate_block(rs, api, 'dash_reject', '(n : xq)', 'bool', "{ %s }" % clos, BASE_CFG)
